@@ -64,6 +64,11 @@ def mol_case(c, tmp):
     r["core"], r["active"] = [int(i) for i in core], [int(i) for i in active]
     ne = int(mol.n_electrons) - 2 * len(core)
     if mapping != "jordan_wigner":
+        # other fermion-to-qubit mappings: the harness compares the spectrum with the Jordan-Wigner Hamiltonian of the
+        # same call and evaluates the Hartree-Fock determinant written in that basis
+        Hjw, _ = qchem.molecular_hamiltonian(mol, method=method, active_electrons=ae, active_orbitals=ao, outpath=tmp)
+        r["H_jw"] = ps_out(Hjw)
+        r["hf_state_mapped"] = [int(x) for x in qchem.hf_state(ne, int(qubits), basis=mapping)]
         return r
     # fermionic Hamiltonian of the same back-end
     try:
